@@ -2410,15 +2410,14 @@ func (c *compiler) emitThrow(v Value) {
 		t := nilSafe(o.self.getStr("name", nil)).toString().String()
 		switch t {
 		case "TypeError", "RangeError":
-			c.emit(loadDynamic(t))
-			msg := o.self.getStr("message", nil)
-			if msg != nil {
-				c.emitLiteralValue(msg)
-				c.emit(_new(1))
-			} else {
-				c.emit(_new(0))
+			// Throw the intrinsic error of the executing realm. (Looking the constructor up by name at run time
+			// would make constant folding observable: the script may have reassigned the global TypeError.)
+			ins := &throwIntrinsicError{rangeError: t == "RangeError"}
+			if msg := o.self.getStr("message", nil); msg != nil {
+				ins.msg = msg.toString().String()
+				ins.hasMsg = true
 			}
-			c.emit(throw)
+			c.emit(ins)
 			return
 		}
 	}
